@@ -12,13 +12,34 @@ Open Scope nat_scope.
 
 Definition code_sem (fb : flat) : sem := CodeSem.code_sem fb.
 
+(** * The rows of the factors outside [act_design]
+
+    RandomGen samples the factors of [act_design]; the other factors of the
+    design are derived factors nobody uses (implied factors), whose levels are
+    added to every sample afterwards ([Block.add_implied_levels]).  In the
+    reference semantics this is [Sem.derive_row]: per trial the level whose
+    table accepts the levels of the factors it reads. *)
+Definition implied_row (fb : flat) (s : tseq) (f : nat) : list cell :=
+  match nth_error (s_factors (code_sem fb)) f with
+  | Some fd =>
+    match f_derived fd with
+    | Some w => match derive_row (code_sem fb) s f fd w with Some row => row | None => nth f s [] end
+    | None => nth f s []
+    end
+  | None => nth f s []
+  end.
+Definition fill_implied (fb : flat) (s : tseq) : tseq :=
+  map (fun f => if isact fb f then nth f s [] else implied_row fb s f) (seq 0 (length (fl_design fb))).
+(** the trial sequence of a candidate, implied factors included *)
+Definition cand_seq (fb : flat) (r : run) : tseq := fill_implied fb (tseq_of_run fb r).
+
 (** * Executable statements of the theorems (evaluated on generated designs by
     the driver command [rg_thm], and by [vm_compute] in the Examples) *)
 Definition keys_of (fb : flat) : list key := match sample_keys fb with ROk ks => ks | RErr _ => [] end.
 
 Definition check_sound (fb : flat) : bool :=
   forallb (fun k => match decode_key fb k with
-                    | Some c => implb (accepts fb c) (valid_b (code_sem fb) (tseq_of_run fb c))
+                    | Some c => implb (accepts fb c) (valid_b (code_sem fb) (cand_seq fb c))
                     | None => false
                     end) (keys_of fb).
 
@@ -31,7 +52,7 @@ Fixpoint tseq_eqb (a b : tseq) : bool :=
   end.
 Definition accepted_tseqs (fb : flat) : list tseq :=
   flat_map (fun k => match decode_key fb k with
-                     | Some c => if accepts fb c then [tseq_of_run fb c] else []
+                     | Some c => if accepts fb c then [cand_seq fb c] else []
                      | None => []
                      end) (keys_of fb).
 Fixpoint tseq_nodupb (l : list tseq) : bool :=
@@ -55,6 +76,9 @@ Definition check_accepted_count (fb : flat) : bool :=
 (** the trial sequence of a key (the empty sequence when decoding fails) *)
 Definition cand_tseq (fb : flat) (k : key) : tseq :=
   match decode_key fb k with Some cand => tseq_of_run fb cand | None => [] end.
+(** the same with the rows of the implied factors ([cand_seq]) *)
+Definition cand_fseq (fb : flat) (k : key) : tseq :=
+  match decode_key fb k with Some cand => cand_seq fb cand | None => [] end.
 (** what [__sample] keeps of a drawn key *)
 Definition key_accepted (fb : flat) (k : key) : bool :=
   match decode_key fb k with Some cand => accepts fb cand | None => false end.
